@@ -71,6 +71,16 @@ def val_pow2(slot=0):
     return make
 
 
+def scaled(maker, factor):
+    """exact rescaling by a power of two (magnitudes far from 1: 2**-60, 2**40)"""
+
+    def make(letters, items):
+        f = maker(letters, items)
+        return lambda lab: f(lab) * factor
+
+    return make
+
+
 def val_base(base=4, shift=0):
     """sum_k base**k * (1+index_k): positional code, distinct per entry, small integers."""
 
@@ -138,6 +148,8 @@ def ndarray_for(letters, items, fn, provenance="C"):
     v = np.zeros(shape)
     for idx in itertools.product(*[range(n) for n in shape]):
         v[idx] = fn(tuple(items[l][i] for l, i in zip(letters, idx)))
+    if provenance == "Cint":  # integer dtype (legitimate: e.g. FlodymArray.full(dims, 2))
+        return v.astype(np.int64)
     if provenance == "C" or not shape:
         return v
     if provenance == "F":
